@@ -93,6 +93,18 @@ def gen_instance(rng):
     if r is not None:
         opts['refinement'] = r
     inst['options'] = opts
+    # a Python kktsolver (or F called from it) fails with a subclass of ArithmeticError as often as with the base class
+    inst['exc_class'] = rng.choice([None, None, 'zerodiv', 'overflow', 'fpe'])
+    if inst['kkt'] in ('ldl', 'default') and rng.random() < 0.2:
+        opts['kktreg'] = rng.choice([0.0, 1e-9, 1e-6])
+    if rng.random() < 0.1:
+        opts['debug'] = True
+    if kind in ('coneqp', 'qp') and rng.random() < 0.15:
+        opts['use_correction'] = False
+    if inst.get('p') == 0 and kind != 'gp' and not inst.get('no_G') and rng.random() < 0.2:
+        inst['pass_empty_A'] = True
+    if kind in ('conelp', 'coneqp', 'cpl', 'cp') and not (inst['dims']['q'] or inst['dims']['s']) and not inst.get('no_G') and rng.random() < 0.2:
+        inst['dims_none'] = True
     return inst
 
 
@@ -179,6 +191,7 @@ def simulate(inst, plan, log=None):
     kplan = {(a, int(b)): True for a, b in plan.get('kkt', [])}
     lplan = {int(j): w for j, w in plan.get('lapack', [])}
     seam = faults.KktSeam(kplan, log)
+    seam.exc_class = {'zerodiv': ZeroDivisionError, 'overflow': OverflowError, 'fpe': FloatingPointError}.get(inst.get('exc_class'), ArithmeticError)
     lseam = faults.LapackSeam(lplan)
     seam.lapack = lseam
     refuse = make_refuse(plan.get('domain'))
